@@ -65,6 +65,18 @@ CLAIMED = {
             'reweighted results carry the flag (theorem list in the evidence). The executable model is compared with pyerrors, and a table oracle '
             '{chain: {config: sample}} of the statement is evaluated on every case incl. list members on different equal-length subsets and Corr.',
             'Lean kernel; standard axioms; the final division of reweight is the C01 truediv site; generator-bounded search.', '5 C05'),
+    'C17': ('Lean 4 theorems on the record readers (decode(encode) = id for stream and chunked readers, int32 codec) + model/impl correspondence on record structure and renumbering + writer-as-oracle on synthetic file sets',
+            'Proof: for every record list, payload size and number of records, reading back an encoded file returns exactly the records (stream readers of '
+            'rwms / ms.dat / gfms.dat and the chunked reader of ms5_xsf). The Lean reader is run on the bytes of every generated binary file and must '
+            'report the stored configuration numbers and the documented renumbering; the implementation is checked against the writer\'s own record of '
+            'distinct per-(replica, configuration, slot) numbers for every format incl. sfcf text layouts, with selections and shuffled directory listings.',
+            'Lean kernel; standard axioms; struct/numpy conversions; regular-expression engine; the reductions (exp average, timeslice sums) are checked numerically only; Hadrons hdf5 not generated.', '5 C17'),
+    'C18': ('Lean 4 theorems: prefix safety of the record readers for every cut offset + fault enumeration of truncation offsets on the implementation + model/impl accept/reject correspondence',
+            'Proof: for every well-formed record file and EVERY cut offset k the reader either rejects the prefix or returns exactly the first k/(4+P) records; '
+            'a cut inside a payload is always rejected; surviving configuration numbers are unchanged (stream and chunked readers). On the implementation '
+            'the truncation offsets of one file per synthetic set are enumerated (stratified sample in quick, all in thorough) incl. sfcf text files and '
+            'json.gz / xml.gz / csv.gz archives; the Lean reader run on the same truncated bytes must agree on accept / reject and record count.',
+            'Lean kernel; standard axioms; rwms 2.0 nested arrays and text layouts are covered by enumeration only; zlib / rapidjson / lxml / pandas rejection by contract.', '5 C18'),
 }
 
 NOT_YET = {}
